@@ -39,10 +39,14 @@ pub enum MOp {
     CloneH { h: u32, new: u32 },
     DropH { h: u32 },
     Burst { n: u32, kind: Kind, first_id: Id },
+    /// (MutateRoot only) allocate n RCells, each pointing to the previous head of root slot `slot`
+    Chain { n: u32, first_id: Id, slot: u8 },
     Validate,
     QueryDead,
     Resurrect { holder: Ref, wslot: u8, store: Option<StoreAt> },
     ResurrectStrong { via: Ref, wslot: u8, slot: u8 },
+    /// leak a RefMut of an RCell: from now on its trace panics forever
+    LeakBorrow { o: Id },
     Panic,
 }
 
@@ -203,6 +207,7 @@ impl std::fmt::Display for MOp {
             MOp::CloneH { h, new } => write!(f, "cloneh h{}->h{}", h, new),
             MOp::DropH { h } => write!(f, "droph h{}", h),
             MOp::Burst { n, kind, first_id } => write!(f, "burst {}x{} from {}", n, kind.name(), first_id),
+            MOp::Chain { n, first_id, slot } => write!(f, "chain {} from {} at R.s{}", n, first_id, slot),
             MOp::Validate => write!(f, "validate"),
             MOp::QueryDead => write!(f, "query_dead"),
             MOp::Resurrect { holder, wslot, store } => {
@@ -215,6 +220,7 @@ impl std::fmt::Display for MOp {
             MOp::ResurrectStrong { via, wslot, slot } => {
                 write!(f, "resurrect_strong ({}.w{}).s{}", via, wslot, slot)
             }
+            MOp::LeakBorrow { o } => write!(f, "leak_borrow {}", o),
             MOp::Panic => write!(f, "PANIC"),
         }
     }
